@@ -333,6 +333,13 @@ class Interp(object):
             x = c[0]
             return {'eq': x == 0, 'ne': x != 0, 'lt': x < 0, 'le': x <= 0, 'gt': x > 0, 'ge': x >= 0}[op]
         ks = _known_sign(d)
+        if ks is None and d.is_poly() and d.is_real():
+            # symbolic quantity against an astronomically large constant (overflow guards such as |x| < 1e150): symbolic numbers
+            # stand for values of ordinary magnitude (the same assumption that makes arithmetic ring arithmetic)
+            c0 = d.num.t.get((), None)
+            if c0 is not None and c0[1] == 0 and abs(c0[0]) >= 10 ** 100 * abs(d.den.t.get((), (1, 0))[0] if d.den.t.get((), None) else 1) and len(d.num.t) > 1 \
+                    and all(abs(cf[0]) < 10 ** 50 and abs(cf[1]) < 10 ** 50 for mono, cf in d.num.t.items() if mono != ()):
+                ks = 1 if c0[0] > 0 else -1
         if ks is not None:
             return {'eq': False, 'ne': True, 'lt': ks < 0, 'le': ks < 0, 'gt': ks > 0, 'ge': ks > 0}[op]
         if op in ('eq', 'ne') and d.is_poly() and not d.is_real():
@@ -377,7 +384,17 @@ class Interp(object):
             return name in ('gt', 'ge', 'ne')
         if isinstance(a, Rat) or isinstance(b, Rat):
             if _numlike(a) and _numlike(b):
-                return self.compare_zero(to_rat(a) - to_rat(b), name)
+                ra, rb = to_rat(a), to_rat(b)
+                # a symbolic quantity against an astronomically large constant (overflow guards such as -1e150 < x < 1e150): symbolic
+                # numbers stand for values of ordinary magnitude (the assumption that also makes arithmetic ring arithmetic)
+                for x_, c_, flip in ((ra, rb, False), (rb, ra, True)):
+                    if c_.is_const() and not x_.is_const() and x_.is_real():
+                        cv = c_.const_value()
+                        if cv[1] == 0 and abs(cv[0]) >= 10 ** 100:
+                            x_less = cv[0] > 0                      # x < c  iff  c is the huge positive one
+                            lt = x_less if not flip else not x_less  # truth of  a < b
+                            return {'eq': False, 'ne': True, 'lt': lt, 'le': lt, 'gt': not lt, 'ge': not lt}[name]
+                return self.compare_zero(ra - rb, name)
             if name == 'eq':
                 return False
             if name == 'ne':
